@@ -174,6 +174,7 @@ fn main() {
         "explore" => explore(&args),
         "kernels" => props::c11::run(&args),
         "bq" => props::c12::run(&args),
+        "selftest" => props::selftest::run(&args),
         "fixtures" => props::c16::run(&args),
         "fixtures-gen" => props::c16::generate(&args),
         "upgrade" => props::c17::run(&args),
